@@ -246,6 +246,8 @@ class CancelStops(Monitor):
             if status != st.CANCELED:
                 return v("render_changed_canceled")
             if len(post["errors"]) > len(pre["errors"]):
-                return v("render_of_canceled_workflow_logged_error",
-                         new_error=post["errors"][-1].get("message", "")[:60])
+                done = any(r.get("status") in COMPLETED for r in post["state"]["sequence"])
+                return v("render_of_canceled_workflow_logged_error", some_task_completed=done,
+                         canceled_by_request_at_rest=bool(sim.h.get("canceled_by_request_at_rest")),
+                         new_error=post["errors"][-1].get("message", "").split(":")[0])
         return []
